@@ -62,6 +62,21 @@ static void gen_op(vr_rng *r, struct op *o)
     o->vec = (int)vr_below(r, NVEC);
     switch (o->f) {
     case F_UNIFORM: o->p[0] = -3.0 + vr_unit(r); o->p[1] = o->p[0] + 0.5 + 10 * vr_unit(r); break;
+    default: break;
+    }
+    /* one call in eight takes a parameter from the far end of its documented range (results in the subnormal range are results too) */
+    if (vr_chance(r, 1, 8)) switch (o->f) {
+    case F_STDGAMMA: o->p[0] = (double[]){ 0.002, 0.01, 0.3, 400.0 }[vr_below(r, 4)]; VR_CNT("calls_with_extreme_parameters"); return;
+    case F_GAMMA: o->p[0] = (double[]){ 0.002, 0.01, 0.3 }[vr_below(r, 3)]; o->p[1] = vr_chance(r, 1, 2) ? 1.0 : 1e-150; VR_CNT("calls_with_extreme_parameters"); return;
+    case F_STDBETA: o->p[0] = 0.002; o->p[1] = 0.5 + vr_unit(r); VR_CNT("calls_with_extreme_parameters"); return;
+    case F_CHISQ: o->p[0] = 0.004; VR_CNT("calls_with_extreme_parameters"); return;
+    case F_WEIBULL: o->p[0] = 0.02; o->p[1] = 1.0; VR_CNT("calls_with_extreme_parameters"); return;
+    case F_EXP: o->p[0] = 1e-306; VR_CNT("calls_with_extreme_parameters"); return;
+    case F_NORMAL: o->p[0] = 0.0; o->p[1] = 1e-308; VR_CNT("calls_with_extreme_parameters"); return;
+    case F_RAYLEIGH: o->p[0] = 1e-307; VR_CNT("calls_with_extreme_parameters"); return;
+    default: break;
+    }
+    switch (o->f) {
     case F_TRI: o->p[0] = 1.0; o->p[1] = 1.0 + 2 * vr_unit(r); o->p[2] = 4.0; break;
     case F_NORMAL: case F_LOGNORM: case F_LOGISTIC: case F_CAUCHY: o->p[0] = vr_unit(r) - 0.5; o->p[1] = 0.1 + 2 * vr_unit(r); break;
     case F_EXP: case F_RAYLEIGH: case F_POISSON: o->p[0] = 0.2 + 3 * vr_unit(r); break;
@@ -150,6 +165,9 @@ static void *job_body(void *vp)
     for (int k = 0; k < NVEC; k++) if (tl_alias[k]) { cmb_random_alias_destroy(tl_alias[k]); tl_alias[k] = NULL; }
     return NULL;
 }
+/* the same program as trials of an experiment: worker threads (and the caller afterwards) are threads like any other */
+static struct job *exp_jobs;
+static void exp_trial(void *vp) { int k = *(int *)vp; struct job j = exp_jobs[k]; j.bar = NULL; job_body(&j); }
 static void run_in_thread(struct job *j) { pthread_t t; pthread_create(&t, NULL, job_body, j); pthread_join(t, NULL); }
 
 static uint64_t pick_seed(vr_rng *r)
@@ -196,6 +214,20 @@ void vr_case(uint64_t seed, uint64_t idx, int profile)
     for (int k = 0; k < tail; k++) { H[nh].f = F_FLIP; nh++; }
     H[nh].f = F_STDGAMMA; H[nh].p[0] = 7.25; nh++;
     H[nh].f = F_GEOM; H[nh].p[0] = 0.77; nh++;
+    /* half of the cases: the history ends with cached-parameter calls whose parameter is a close neighbour (1 ulp .. 1e-6 relative) of the
+     * one the seeded program uses first: a cache must be keyed on the exact value */
+    if (vr_chance(&r, 1, 2)) {
+        static const double bases[] = { 3.0, 7.25, 25.0, 1.5, 1.0 / (0.2 * 0.2), 50.0 };
+        double a = vr_chance(&r, 1, 3) ? 1.0 + 60.0 * vr_unit(&r) : bases[vr_below(&r, 6)], na;
+        switch (vr_below(&r, 6)) { case 0: na = nextafter(a, 1e9); break; case 1: na = nextafter(a, 0.0); break; case 2: na = a * (1.0 + 9e-16); break;
+                                   case 3: na = a * (1.0 + 1e-13); break; case 4: na = a * (1.0 - 1e-12); break; default: na = a * (1.0 + 1e-9); break; }
+        double pg = 0.05 + 0.9 * vr_unit(&r), npg = vr_chance(&r, 1, 2) ? nextafter(pg, 1.0) : pg * (1.0 - 1e-13);
+        int at = (int)vr_below(&r, 4);
+        switch (vr_below(&r, 3)) { case 0: S[at].f = F_STDGAMMA; S[at].p[0] = a; break; case 1: S[at].f = F_GAMMA; S[at].p[0] = a; S[at].p[1] = 2.0; break; default: S[at].f = F_CHISQ; S[at].p[0] = 2.0 * a; na = na; break; }
+        S[at + 1].f = F_GEOM; S[at + 1].p[0] = pg;
+        if (na != a) { H[nh].f = F_STDGAMMA; H[nh].p[0] = na; nh++; VR_CNT("histories_ending_on_a_neighbouring_gamma_shape"); }
+        if (npg != pg) { H[nh].f = F_GEOM; H[nh].p[0] = npg; nh++; VR_CNT("histories_ending_on_a_neighbouring_geometric_p"); }
+    }
     VR_ADD("H_calls", nh); vr_fp_mix((uint64_t)tail);
 
     uint64_t sd = pick_seed(&r), hsd = pick_seed(&r);
@@ -217,6 +249,19 @@ void vr_case(uint64_t seed, uint64_t idx, int profile)
         job_body(&jc);
         VR_CNT("pairs_fresh_vs_main_thread");
         for (int k = 0; k < ns; k++) if (oa[k] != ob[k]) { vr_violation("C15/history-dependence", "seed %#" PRIx64 ": call %d (%s) differs in main thread after history", sd, k, fname[S[k].f]); break; }
+    }
+    /* as trials of cimba_run_experiment (1..24 trials, all the same seeded program, different histories), and in this thread afterwards */
+    if (vr_nviol == 0 && (profile == 1 || idx % 4 == 0)) {
+        int ntr = 1 + (int)vr_below(&r, 24); int *ids = calloc((size_t)ntr, sizeof *ids);
+        exp_jobs = calloc((size_t)ntr, sizeof *exp_jobs); uint64_t **eo = calloc((size_t)ntr, sizeof *eo);
+        for (int t = 0; t < ntr; t++) { ids[t] = t; eo[t] = calloc((size_t)ns, 8); exp_jobs[t] = (struct job){ sd, S, ns, eo[t], vr_next(&r), H, (int)vr_below(&r, (uint64_t)nh), 0, NULL }; }
+        cimba_run_experiment(ids, (uint64_t)ntr, sizeof *ids, exp_trial);
+        for (int t = 0; t < ntr && vr_nviol == 0; t++) { VR_CNT("pairs_fresh_vs_experiment_trial");
+            for (int k = 0; k < ns; k++) if (oa[k] != eo[t][k]) { vr_violation("C15/thread-dependence", "seed %#" PRIx64 ": call %d (%s, parameter %g) returned %#" PRIx64 " in a plain thread but %#" PRIx64 " in trial %d of an experiment", sd, k, fname[S[k].f], S[k].p[0], oa[k], eo[t][k], t); break; } }
+        if (vr_nviol == 0) { struct job jc = { sd, S, ns, ob, 0, NULL, 0, 0, NULL }; memset(ob, 0, (size_t)ns * 8); job_body(&jc); VR_CNT("pairs_fresh_vs_caller_after_experiment");
+            for (int k = 0; k < ns; k++) if (oa[k] != ob[k]) { vr_violation("C15/thread-dependence", "seed %#" PRIx64 ": call %d (%s, parameter %g) returned %#" PRIx64 " in a plain thread but %#" PRIx64 " in the thread that has run an experiment", sd, k, fname[S[k].f], S[k].p[0], oa[k], ob[k]); break; } }
+        for (int t = 0; t < ntr; t++) free(eo[t]);
+        free(eo); free(exp_jobs); free(ids); exp_jobs = NULL;
     }
     /* concurrent: nt threads, thread 0 runs (sd,S), others run their own programs */
     if (vr_nviol == 0) {
